@@ -28,6 +28,8 @@ pub enum V {
     Closure(Rc<Lam>, Env),
     Prim(&'static str),
     Cont(K),
+    /// a syntax-rules transformer: the model does not expand macros, it only knows the name is one
+    Macro,
 }
 
 pub enum Obj {
@@ -66,6 +68,8 @@ pub enum E {
     App(Rc<Vec<Ex>>),
     Prim(&'static str),
     Delay(Ex),
+    /// (define-syntax name ...): binds the global to an opaque macro value when evaluated
+    DefineSyntax(Rc<str>),
 }
 
 pub enum Fr {
@@ -243,6 +247,7 @@ impl Machine {
             V::Unspec => Cell::Void,
             V::Closure(_, _) | V::Prim(_) => Cell::Procedure(None),
             V::Cont(_) => Cell::Continuation,
+            V::Macro => Cell::Macro,
             V::Undef | V::Promise(_) => return excl("unrepresentable value as datum"),
         })
     }
@@ -268,6 +273,7 @@ impl Machine {
             (V::Closure(_, _), Cell::Procedure(_)) | (V::Prim(_), Cell::Procedure(_)) => true,
             (V::Cont(_), Cell::Continuation) | (V::Cont(_), Cell::Procedure(_)) => true,
             (V::Promise(_), _) => true,
+            (V::Macro, Cell::Macro) => true,
             _ => false,
         }
     }
@@ -748,7 +754,16 @@ impl Machine {
                             let e = self.desugar(args[0])?;
                             return Ok(Rc::new(E::Delay(e)));
                         }
-                        "define-syntax" | "let-syntax" | "letrec-syntax" | "do" | "delay-force" | "case-lambda" | "guard"
+                        "define-syntax" => {
+                            // well-formed enough for the model: (define-syntax <identifier> (syntax-rules ...))
+                            return match (args.first(), args.get(1)) {
+                                (Some(Cell::Symbol(n)), Some(Cell::Pair(h, _))) if args.len() == 2 && h.as_symbol() == Some("syntax-rules") => {
+                                    Ok(Rc::new(E::DefineSyntax(Rc::from(n.as_str()))))
+                                }
+                                _ => excl("define-syntax form the model does not analyse"),
+                            };
+                        }
+                        "let-syntax" | "letrec-syntax" | "do" | "delay-force" | "case-lambda" | "guard"
                         | "parameterize" | "let-values" | "define-values" | "define-record-type" => {
                             return excl("form outside the model's grammar");
                         }
@@ -899,6 +914,15 @@ impl Machine {
                 }
             }
             E::App(parts) => {
+                // a form whose operator names a macro is a macro use: the implementation expands it before
+                // anything is evaluated, which the model does not do
+                if let E::Ref(name) = &*parts[0] {
+                    if let Some(loc) = self.lookup(&env, name) {
+                        if let Obj::Box(V::Macro) = &self.store[loc] {
+                            return excl("macro use (the model does not expand user macros)");
+                        }
+                    }
+                }
                 if parts.len() == 1 {
                     let k2 = self.push(Fr::Args(parts.clone(), 0, Rc::new(vec![]), env.clone()), &k);
                     State::Eval(parts[0].clone(), env, k2)
@@ -906,6 +930,19 @@ impl Machine {
                     let k2 = self.push(Fr::Args(parts.clone(), 1, Rc::new(vec![]), env.clone()), &k);
                     State::Eval(parts[1].clone(), env, k2)
                 }
+            }
+            E::DefineSyntax(name) => {
+                match self.globals.get(&**name) {
+                    Some(loc) => {
+                        let loc = *loc;
+                        self.store[loc] = Obj::Box(V::Macro);
+                    }
+                    None => {
+                        let loc = self.alloc(Obj::Box(V::Macro));
+                        self.globals.insert(name.to_string(), loc);
+                    }
+                }
+                State::Ret(V::Unspec, k)
             }
             E::Delay(e) => {
                 let thunk = V::Closure(Rc::new(Lam { params: vec![], rest: None, defs: vec![], body: Rc::new(vec![e.clone()]) }), env);
@@ -1027,6 +1064,7 @@ impl Machine {
             }
             V::Prim(p) => self.prim(p, args, k),
             V::Unspec => excl("unspecified value used as an operator"),
+            V::Macro => excl("macro use (the model does not expand user macros)"),
             _ => fail(Fail::NotProcedure),
         }
     }
